@@ -534,6 +534,8 @@ def run_C02(ctx):
 
 def run_C03(ctx):
     run_dynamics(ctx, ['C03'])
+    eval_unit_step(ctx, ctx.budget(150, 5000))
+    ctx.rule += '; plus single calls of Solver._time_integration on quantities in random units against the unit-level model'
 
 
 def run_C13(ctx):
@@ -988,3 +990,71 @@ def replay_C17(ctx, case):
         return
     for msg, det in oracle_C17(spec, tr, b)[:1]:
         ctx.violation(case, {'why': msg, **det})
+
+
+# ---------------------------------------------------------------------------------------------
+# C03 / C07: the solver's arithmetic on unit-carrying quantities, one statement at a time
+# ---------------------------------------------------------------------------------------------
+
+def eval_unit_step(ctx, n):
+    """`Solver._time_integration` called on a real powertrain whose last element carries position, speed
+    and acceleration in random units, with dt in a random unit: result quantities (kind, value, unit)
+    against the unit-level Lean model `integrateU` and against the SI update"""
+    import gearpy.units as U
+    from gearpy.solver import Solver
+    from harness.units_h import uidx, uname
+    rng = ctx.rng
+    lines, impl, cases = [], [], []
+    for _ in range(n):
+        b = sim.build(tiny_chain())
+        solver = Solver(b.pt)
+        if not hasattr(solver, '_time_integration'):
+            ctx.note('Solver._time_integration not found: unit-level step stream skipped')
+            return
+        last = b.E[-1]
+        c = {'t': 'ustep', 'pos': gen.in_unit(rng, 'AngularPosition', rng.uniform(-50, 50), True),
+             'speed': gen.in_unit(rng, 'AngularSpeed', rng.uniform(-200, 200), True),
+             'acc': gen.in_unit(rng, 'AngularAcceleration', rng.uniform(-500, 500), True),
+             'dt': gen.in_unit(rng, 'TimeInterval', 10.0 ** rng.uniform(-4, 1), True)}
+        last.angular_position = sim.Q('AngularPosition', c['pos'])
+        last.angular_speed = sim.Q('AngularSpeed', c['speed'])
+        last.angular_acceleration = sim.Q('AngularAcceleration', c['acc'])
+        try:
+            solver._time_integration(time_discretization=sim.Q('TimeInterval', c['dt']))
+            out = ('ok', last.angular_position, last.angular_speed)
+        except Exception as ex:  # noqa: BLE001
+            out = ('err', type(ex).__name__)
+        cases.append(c)
+        impl.append(out)
+        tok = lambda k, vu: f'{k}:{R(vu[0])}:{uidx(k, vu[1])}'  # noqa: E731
+        lines.append(f"us op=integrate pos={tok('AngularPosition', c['pos'])} speed={tok('AngularSpeed', c['speed'])} "
+                     f"acc={tok('AngularAcceleration', c['acc'])} dt={tok('TimeInterval', c['dt'])}")
+    answers = ctx.driver.ask(lines) if ctx.driver.available else [None] * len(lines)
+    for c, out, a in zip(cases, impl, answers):
+        ctx.case_done(c, nontrivial=True)
+        ctx.count('unit-level integration steps')
+        if out[0] != 'ok':
+            ctx.violation(c, {'why': f'_time_integration raised {out[1]}'})
+            continue
+        p, v = out[1], out[2]
+        dt = float(F(c['dt'][0]) * SI['TimeInterval'][c['dt'][1]])
+        w0 = float(F(c['speed'][0]) * SI['AngularSpeed'][c['speed'][1]])
+        a0 = float(F(c['acc'][0]) * SI['AngularAcceleration'][c['acc'][1]])
+        p0 = float(F(c['pos'][0]) * SI['AngularPosition'][c['pos'][1]])
+        wv = w0 + a0 * dt
+        wp = p0 + wv * dt
+        if not near(sim.qsi(v), wv, max(abs(w0), abs(a0 * dt))) or not near(sim.qsi(p), wp, max(abs(p0), abs(wv * dt))):
+            ctx.violation(c, {'why': f'unit-level update gives speed {sim.qsi(v)} / position {sim.qsi(p)} (SI), expected {wv} / {wp}'})
+        if a is not None:
+            w = a.split()
+            if w[0] != 'ok':
+                ctx.mismatch(c, 'updated', a)
+                continue
+            for q, tokn in ((p, w[1]), (v, w[2])):
+                k, val, u = tokn.split(':')
+                if k != type(q).__name__ or uname(k, int(u)) != q.unit or not near(q.value, parse_num_(val), max(abs(q.value), 1e-12), 1e-9):
+                    # cancellation: compare relative to the operands
+                    if k == type(q).__name__ and uname(k, int(u)) == q.unit and abs(q.value - parse_num_(val)) <= 1e-9 * max(abs(wp), abs(p0), abs(wv), abs(w0)) / float(SI[k][q.unit]):
+                        continue
+                    ctx.mismatch(c, f'{type(q).__name__} {q.value} {q.unit}', a)
+                    break
